@@ -245,6 +245,10 @@ def prec_field(e):
     if isinstance(e, ast.Attribute) and e.attr in PREC_ATTRS: return PREC_ATTRS[e.attr]
     return None
 
+def obj_of(e):
+    """the object expression X of `X.prec` (dotted form, else the ast dump)"""
+    return dotted(e.value) or ast.dump(e.value)
+
 def is_prec_rounding_store(e):
     return (isinstance(e, ast.Subscript) and isinstance(e.value, ast.Attribute)
             and e.value.attr == '_prec_rounding')
@@ -256,6 +260,7 @@ class Translator:
         self.volatile = set()   # tracked variables that any call may overwrite
         self.mgr = 0
         self.aliases = {}       # local name -> attribute name (name = X.attr)
+        self.saved_obj = {}     # tracked variable name -> {object expressions X of its saves `v = X.prec`}
         self.lambdas = {}       # local name -> [Lambda nodes]  (name = lambda …)
         a = fo.node.args
         self.params = {x.arg for x in a.posonlyargs + a.args + a.kwonlyargs} | \
@@ -290,7 +295,9 @@ class Translator:
                 if prec_field(n.value):
                     for t in n.targets:
                         d = dotted(t)
-                        if d and not prec_field(t): self.var(d)
+                        if d and not prec_field(t):
+                            self.var(d)
+                            self.saved_obj.setdefault(d, set()).add(obj_of(n.value))
                 elif isinstance(n.value, ast.Attribute) and len(n.targets) == 1 \
                         and isinstance(n.targets[0], ast.Name):
                     self.aliases.setdefault(n.targets[0].id, set()).add(n.value.attr)
@@ -400,6 +407,10 @@ class Translator:
                 if ft:
                     d = dotted(s.value)
                     src = self.vars[d] if d in self.vars else None
+                    # `Y.prec = v` restores the save `v = X.prec` only if X and Y are the same object expression:
+                    # the precision of ANOTHER context object (ctx._mp against ctx) is a write from an untracked source
+                    if src is not None and self.saved_obj.get(d) and self.saved_obj[d] != {obj_of(t)}:
+                        src = None
                     out.append(('setPrec' if ft == 'prec' else 'setDps', src))
                 else:
                     if not isinstance(t, ast.Name): out.append(self.ev(t))
